@@ -119,10 +119,26 @@ def positional_args(cls, D):
     return vals
 
 
+def as_traced(v):
+    """what eqx.filter_vmap / filter_jit hand to the constructor for a float leaf: a 0-d array"""
+    if isinstance(v, Poly):
+        return Tens.scalar(v)
+    if isinstance(v, tuple):
+        return tuple(as_traced(x) for x in v)
+    if isinstance(v, list):
+        return [as_traced(x) for x in v]
+    return v
+
+
 def build(it, cls, D, **overrides):
+    traced = overrides.pop("_traced", False)
     kwargs = symbolic_kwargs(cls, overrides.pop("_overrides", None), overrides.pop("_tuple_len", None))
     kwargs.update(overrides)
-    return it.call(cls, positional_args(cls, D), kwargs)
+    pos = positional_args(cls, D)
+    if traced:
+        kwargs = {k: (as_traced(v) if k not in ("num_circle_points", "injection_mode") else v) for k, v in kwargs.items()}
+        pos = [as_traced(p) if (isinstance(p, Poly) and p != N) else p for p in pos]
+    return it.call(cls, pos, kwargs)
 
 
 def allowed_dims(it, cls, **kw):
